@@ -190,9 +190,21 @@ where
     if matches!(compression_method, Some(CompressionMethod::Bgzf)) {
         let mut decoder = MultiGzDecoder::new(src);
         let mut buf = [0; BAM_MAGIC_NUMBER.len()];
-        decoder.read_exact(&mut buf)?;
 
-        if buf == BAM_MAGIC_NUMBER {
+        // A stream with fewer uncompressed bytes than the magic number, e.g., an empty bgzipped SAM,
+        // cannot be BAM.
+        let mut len = 0;
+
+        while len < buf.len() {
+            match decoder.read(&mut buf[len..]) {
+                Ok(0) => break,
+                Ok(n) => len += n,
+                Err(e) if e.kind() == io::ErrorKind::Interrupted => {}
+                Err(e) => return Err(e),
+            }
+        }
+
+        if buf[..len] == BAM_MAGIC_NUMBER {
             return Ok(Format::Bam);
         }
     } else if let Some(buf) = src.get(..BAM_MAGIC_NUMBER.len()) {
